@@ -169,3 +169,44 @@ pub fn gap_key(pr: &Printed, g: usize) -> String {
 pub fn render_default(pr: &Printed, layout: Layout, gaps: &[usize]) -> Rendered {
     render(&pr.toks, layout, gaps, &|g| format!(" c{}", g))
 }
+
+/// Comment ownership class of gap g in the vocabulary of the generator: the innermost
+/// declaration / statement node that contains token g, whether the comment leads that node,
+/// and whether the node is a block used as branch of an if / while.
+pub fn owner_key(pr: &Printed, g: usize) -> String {
+    if g >= pr.toks.len() {
+        return "after-last-token".into();
+    }
+    let managing = |k: &NodeKind| {
+        matches!(
+            k,
+            NodeKind::TypeDecl
+                | NodeKind::ProcDecl
+                | NodeKind::Param
+                | NodeKind::VarDecl
+                | NodeKind::StmtAssign
+                | NodeKind::StmtCall
+                | NodeKind::StmtEmpty
+                | NodeKind::StmtIf
+                | NodeKind::StmtWhile
+                | NodeKind::StmtBlock
+        )
+    };
+    let mut best: Option<(usize, &Span)> = None;
+    for (i, s) in pr.spans.iter().enumerate() {
+        if managing(&s.kind) && s.first <= g && g < s.end {
+            if best.map(|(_, b)| (s.end - s.first) <= (b.end - b.first)).unwrap_or(true) {
+                best = Some((i, s));
+            }
+        }
+    }
+    match best {
+        None => "top-level".into(),
+        Some((i, s)) => format!(
+            "{:?}{}:{}",
+            s.kind,
+            if pr.branch_blocks.contains(&i) { "(branch)" } else { "" },
+            if g == s.first { "leading" } else { "inner" }
+        ),
+    }
+}
